@@ -76,11 +76,12 @@ func (p *Program) verifyFunc(name string, c *FuncContract) *FuncResult {
 		fr.params = append(fr.params, tv(t))
 		ex.typeInvariant(st, t, prm.Type())
 	}
+	pkg := fn.Pkg.Pkg
 	for _, fv := range fn.FreeVars {
 		// closures verified on their own: free variables are opaque cells
 		et := fv.Type().(*types.Pointer).Elem()
 		vc.cellCtr++
-		cell := &Cell{id: vc.cellCtr, name: fv.Name(), typ: et, sort: vc.sorts.SortOf(et)}
+		cell := &Cell{id: vc.cellCtr, frame: fr.id, name: fv.Name(), typ: et, sort: vc.sorts.SortOf(et)}
 		st.order = append(st.order, cell)
 		t := Term{"fv_" + sanitize(fv.Name()), cell.sort}
 		vc.declare(t.S, cell.sort)
@@ -88,9 +89,11 @@ func (p *Program) verifyFunc(name string, c *FuncContract) *FuncResult {
 		st.shared[cell] = true
 		fr.free = append(fr.free, Val{K: VPtr, P: &Ptr{Kind: PCell, Cell: cell, Typ: et}})
 	}
-	pkg := fn.Pkg.Pkg
 	// global assumptions
 	for _, ga := range p.contracts.Assumes {
+		if !pkgSees(pkg, ga.pkg) {
+			continue
+		}
 		env := ex.newEnv(st, nil, ga.pkg, fr)
 		f := env.Bool(ga.Expr)
 		if len(env.errs) == 0 {
@@ -145,6 +148,7 @@ func (p *Program) verifyFunc(name string, c *FuncContract) *FuncResult {
 			for _, e := range c.Ensures {
 				post.errs = nil
 				post.ground = true
+				post.goal = true
 				g := post.Bool(e.Expr)
 				if len(post.errs) > 0 {
 					vc.fatalf("%s ensures %q: %s", name, e.Text, strings.Join(post.errs, "; "))
@@ -310,6 +314,7 @@ func (p *Program) verifyLemma(l *LemmaDecl) *FuncResult {
 	res.CoverPC = append([]string{}, st.pc...)
 	for _, e := range l.Ensures {
 		env.ground = true
+		env.goal = true
 		g := env.Bool(e.Expr)
 		if len(env.errs) > 0 {
 			res.Fatal = append(res.Fatal, fmt.Sprintf("lemma %s ensures %q: %s", l.Name, e.Text, strings.Join(env.errs, "; ")))
@@ -323,4 +328,29 @@ func (p *Program) verifyLemma(l *LemmaDecl) *FuncResult {
 	res.Fatal = append(res.Fatal, vc.fatal...)
 	res.Preamble = vc.preamble()
 	return res
+}
+
+// pkgSees: an assume line applies to its own package and to packages importing it.
+func pkgSees(user, decl *types.Package) bool {
+	if decl == nil || user == decl {
+		return true
+	}
+	seen := map[*types.Package]bool{}
+	var walk func(p *types.Package) bool
+	walk = func(p *types.Package) bool {
+		if p == decl {
+			return true
+		}
+		if seen[p] {
+			return false
+		}
+		seen[p] = true
+		for _, i := range p.Imports() {
+			if walk(i) {
+				return true
+			}
+		}
+		return false
+	}
+	return walk(user)
 }
